@@ -193,7 +193,7 @@ Definition d_values (n m : N) (pcp prv : list N) (pnz : list dy) (acp arv : list
             | Some (lv, perm) => chk_ldl knz (mDiagFull mp) ds eps static_reg lv (nats perm)
             | None => true
             end in
-  let b16 := negb static_reg || dltb d0 eps in
+  let b16 := negb static_reg || dleb d0 eps in
   (bit b1 1 + bit b2 2 + bit b4 4 + bit b8 8 + bit b16 16)%N.
 
 Definition c_values n m pcp prv pnz acp arv anz shapes kcp krv knz mp ds hs hb eps static_reg ldl : N :=
@@ -227,3 +227,13 @@ Definition apply_mapop (perm : list nat) (kl : list dy * list dy) (op : mapop) :
 Definition c_mapops (k0 l0 : list dy) (perm : list N) (ops : list mapop) (k1 l1 : list dy) : N :=
   let kl := fold_left (apply_mapop (nats perm)) ops (k0, l0) in
   ofb (list_eqb deqb (fst kl) k1 && list_eqb deqb (snd kl) l1).
+
+(** the static regulariser of the current update is the model's formula for the current settings:
+    eps = constant + proportional * max |diag(K)| (K's diagonal read through diag_full, which
+    after the update is the unregularised one); compared to 2^-45 relative (one rounded
+    multiplication and addition) *)
+Definition c_eps (knz : list dy) (dfull : list N) (eps c p : dy) (static_reg : bool) : N :=
+  if negb static_reg then 0%N else
+  let diag := map (fun i => nth (N.to_nat i) knz d0) dfull in
+  let model := dadd c (dmul p (dnorminf diag)) in
+  ofb (dleb (dabs (dsub eps model)) (dmul (D 1 (-45)) model)).
